@@ -19,6 +19,11 @@ def run(ctx):
     LK.k8_strategy_parent_pairing(ctx, modules=("bijection", "specification_extrator"))
     LK.k9_index_order(ctx)
     LK.k11_extractor_start(ctx, K)
+    LK.k4_key_normal_form(ctx, K)
+    from ..engines import equivrules as Q
+    Q.k17_find_path(ctx)
+    ctx.floor("K4", 9)
+    ctx.floor("K17", 3)
     from ..engines import bijplumb as B
     B.b1_permutation_convention(ctx, only_sibling=True)
     B.b4_matching_complete(ctx, classes=(("ParallelSpecFinder", "_find"),))
